@@ -60,7 +60,7 @@ def run(chk):
             mod = 10 ** rng.uniform(-3, 3)
             c = mod * (np.exp(2j * np.pi * rng.rand()) if cplx else rng.choice([-1.0, 1.0]))
             nfft = int(rng.choice([n, 128, 129]))
-            for name in zoo.CLASSES:
+            for name in zoo.CLASSES + zoo.VARIANTS:
                 scaling_events(chk, batch, rng, name, 'class',
                                lambda d, nm=name: zoo.outputs(nm, zoo.build(nm, d, nfft)), x, c, dt)
             for name in zoo.FUNCTIONS:
